@@ -41,6 +41,7 @@ from ._encoders import (
     _AddToOpcodeEncoder,
     _Encoder,
     _FusedEncoder,
+    _read_exact,
     _StandaloneEncoder,
 )
 
@@ -251,7 +252,7 @@ class _OpcodeEncodable(Generic[_OpcodeT]):
 
         type_storage = cls._per_type_storage[cls._opcode_type]
 
-        opcode_byte = int.from_bytes(io.read(1), byteorder)
+        opcode_byte = int.from_bytes(_read_exact(io, 1), byteorder)
         bytes_read = 1
         opcode_cls = type_storage.opcodes.get(opcode_byte)
 
